@@ -60,8 +60,8 @@ def run(prop="C03", clauses=("Completes",)):
     triples, tasks = build(chk, "c03")
     events = mergefam.generate(tasks)
     info = {t[0]: t[4] for t in triples}
-    for ev in events:
-        chk.count((info[ev["tid"]].get("abstract"),), nontrivial=True, n=len(ev["runs"]))
+    for tid, names in events.meta:
+        chk.count((info[tid].get("abstract"),), nontrivial=True, n=len(names))
     # only what this property decides is sent to TLC: runs that raised carry no payload
     v = mergefam.validate(chk, events, "MergeTrace on %d triples" % len(events))
     idx = mergefam.index_runs(events)
